@@ -44,7 +44,13 @@ impl Prop for C05 {
 
     fn gen(&self, src: &mut Src) -> Case {
         // one case in five leaves the repair clause's precondition (exactness of the diff is claimed for any replica)
-        let pool = if src.chance(1, 5) { gen_pool_gaps(src, 8) } else { gen_pool(src, 12) };
+        let pool = if src.chance(1, 500) {
+            crate::replicas::gen_pool_big(src)
+        } else if src.chance(1, 5) {
+            gen_pool_gaps(src, 8)
+        } else {
+            gen_pool(src, 12)
+        };
         let plans = [gen_plan(src, &pool, 2), gen_plan(src, &pool, 2)];
         let purge = [src.chance(1, 2), src.chance(1, 2)];
         let chunks = [1 + src.below(3), 1 + src.below(3)];
@@ -67,7 +73,7 @@ impl Prop for C05 {
     }
 
     fn rule(&self) -> &'static str {
-        "two OrSWotSet<2> replicas built as in C03 (Window / Prefix modes) or, one case in five, with arbitrary gaps on an exact \
+        "two OrSWotSet<2> replicas built as in C03 (Window / Prefix modes; one case in 500 from a pool of 200-5000 operations over up to 20000 keys) or, one case in five, with arbitrary gaps on an exact \
          1 h grid (stamps that sit exactly on a cut-off; exactness only), optionally purged; oracle 1 (always): \
          self.diff(peer) lists key k iff peer holds (k,p) and (self holds k older than p, or self holds nothing \
          for k and a will_apply probe on an unused key accepts p), as modification iff live at the peer, with \
@@ -257,6 +263,9 @@ fn run(case: &Case) -> Outcome {
     }
     if case.chunks[0] > 1 {
         labels.push("chunked_fetch");
+    }
+    if case.pool.ops.len() > 64 {
+        labels.push("big_pool_200..5000_ops");
     }
     Ok(Pass { nontrivial: both_kinds, labels })
 }
